@@ -134,6 +134,18 @@ def texture(rng, kind, n):
         spin = Rotation.from_rotvec(np.c_[np.zeros(n), np.zeros(n), rng.uniform(0, 2 * np.pi, n)])
         noise = Rotation.from_rotvec(rng.normal(0, 0.05, (n, 3)))
         return (noise * spin * base).as_matrix()
+    if kind == "aligned":     # grains exactly aligned with the reference axes (signed axis permutations)
+        import itertools
+        ms = []
+        for perm in itertools.permutations(range(3)):
+            for sg in itertools.product((1.0, -1.0), repeat=3):
+                m = np.zeros((3, 3))
+                for i, (p, g) in enumerate(zip(perm, sg)):
+                    m[i, p] = g
+                if np.linalg.det(m) > 0:
+                    ms.append(m)
+        base = ms[int(rng.integers(len(ms)))]
+        return np.repeat(base[None], n, axis=0)
     if kind == "isotropic3":  # scatter matrix exactly the identity: excluded from coaxial_index
         e = np.eye(3)
         return np.stack([e, e[[1, 2, 0]], e[[2, 0, 1]]])
@@ -159,8 +171,8 @@ def gen_textures(chk, tier):
     out = []
     k = 0
     for _ in range(reps):
-        for kind in ("random", "clustered", "girdled", "single"):
-            for n in sizes:
+        for kind in ("random", "clustered", "girdled", "single", "aligned"):
+            for n in (sizes if kind != "aligned" else [1, 2, 3, 4, 5, 6]):
                 out.append(dict(kind=kind, n=n, os=texture(rng, kind, n), axis=AXES[k % 3],
                                 axis2=AXES[(k // 3 + k + 1) % 3], seed=int(rng.integers(1 << 30))))
                 k += 1
@@ -450,7 +462,7 @@ def search(chk, extra=()):
     for m in extra:
         if "os" in m and m.get("n", 1 << 30) <= 200:
             pool.append((m["os"], m.get("axis", "a") if m.get("axis") in AXCODE else "a", m.get("axis2", "b")))
-    for kind in ("clustered", "girdled", "random", "single"):
+    for kind in ("clustered", "girdled", "random", "single", "aligned", "aligned", "aligned"):
         for n in (1, 2, 5, 30):
             for ax in AXES:
                 pool.append((texture(rng, kind, n), ax, AXES[(AXCODE[ax] + 1) % 3]))
